@@ -116,10 +116,16 @@ class Registry:
 
     def spec(self, src, types, ret, opaque=False):
         s = Spec(src, types, ret, opaque=opaque)
+        prev = self.specs.get(s.name)
+        if prev is not None and getattr(prev, "src", src).strip() != src.strip():
+            # one namespace for all sidecars: a second, different definition would silently replace the first
+            raise ValueError("specification function %s is defined twice with different bodies" % s.name)
         self.specs[s.name] = s
         return s
 
     def lemma(self, *a, **kw):
         lm = Lemma(*a, **kw)
+        if lm.name in self.lemmas and self.lemmas[lm.name].statement != lm.statement:
+            raise ValueError("lemma %s is defined twice with different statements" % lm.name)
         self.lemmas[lm.name] = lm
         return lm
